@@ -62,6 +62,13 @@ def mk(cls, fn):
   return make
 
 
+def _cva0(vals):
+  # *args values present, the named parameter below them deleted again
+  c = fdl.Config(N.node_va, 'A', *[v for v in vals if v is not shapes.UNSET])
+  del c.a
+  return c
+
+
 def kinds():
   K = shapes.Kind
   return {
@@ -82,6 +89,15 @@ def kinds():
           N.node_b, x=fdl.ArgFactory(N.node, **{
               n: v for n, v in zip(('x', 'y'), vals)
               if v is not shapes.UNSET})), True),
+      # positional values: positional-only + *args, and a named parameter
+      # below *args (generators that cannot express them must reject)
+      # a classmethod inherited by, and reached through, a subclass
+      'inhcm': K('inhcm', 2, True, mk(fdl.Config, N.MakerSub.make), True),
+      'cpos': K('cpos', 2, True, lambda vals: fdl.Config(
+          N.node_pos, *[v for v in vals if v is not shapes.UNSET]), True),
+      'cva': K('cva', 2, True, lambda vals: fdl.Config(
+          N.node_va, 'A', *[v for v in vals if v is not shapes.UNSET]), True),
+      'cva0': K('cva0', 2, True, lambda vals: _cva0(vals), True),
       'list2': K('list2', 2, False, list),
       'tuple2': K('tuple2', 2, False, tuple),
       'tuple1': K('tuple1', 1, False, tuple),
@@ -89,7 +105,7 @@ def kinds():
   }
 
 
-FULL = ['cfg', 'cls', 'pa', 'pb', 'pc', 'named_nodes', 'named_fixture', 'ann', 'annb',
+FULL = ['cfg', 'cls', 'pa', 'pb', 'pc', 'inhcm', 'cpos', 'cva', 'cva0', 'named_nodes', 'named_fixture', 'ann', 'annb',
         'annn', 'inner', 'par', 'parf', 'list2', 'tuple2', 'dict2']
 SMALL = ['cfg', 'pa', 'par', 'list2']
 ROOTS = [k for k in FULL if k not in ('list2', 'tuple2', 'dict2')]
@@ -209,6 +225,9 @@ def make(shape, tagged=False):
   elif tagged:
     for i, o in enumerate(objs):
       if isinstance(o, fdl.Buildable):
+        for v in o.__arguments__.values():
+          if isinstance(v, fdl.ArgFactory) and 'x' in v.__arguments__:
+            fdl.add_tag(v, 'x', N.TagB)       # the ArgFactory's own argument
         # only arguments that have values are tagged (domain of C12)
         for j, name in enumerate(('x', 'y')):
           if name in o.__arguments__ and not isinstance(
@@ -335,7 +354,8 @@ def expression_values():
   out = [0, -1, 2**64, -10**40, True, False, None, 0.5, -0.0, 1e308, 5e-324,
          float('inf'), float('-inf'), float('nan'), 'a', '', 'q"\'\\\n\x00é',
          b'', b'\\u0041\xff', N.Color.RED, N.Outer.Mode.EVAL, N.Mode.TRAIN,
-         N.Base, N.node, N.Outer.Inner, int, len]
+         N.Base, N.node, N.Outer.Inner, int, len, N.MakerBase.make,
+         N.MakerSub.make]
   for re_ in (0.0, -0.0, 1.0, -1.0):
     for im in (0.0, -0.0, 1.0, -1.0):
       out.append(complex(re_, im))
